@@ -582,7 +582,7 @@ def main(tier, seed):
         required_stats=("trees", "solutions", "optimum_matched",
                         "enumerator_cross_checked_with_gurobi",
                         "trees_with_positive_optimum", "coarse_within_fine"),
-        chunk=1, budget_s=280 if tier == "quick" else 3000, confirm_job=confirm_job)
+        chunk=1, budget_s=280 if tier == "quick" else 900, confirm_job=confirm_job)
 
 
 def replay(path):
